@@ -943,17 +943,28 @@ func (h *c16Hist) fill() {
 	}
 	// make sure the kick stream is already there (it takes one slot)
 	h.waitKick()
-	for i := 0; i < 4096; i++ {
+	// the credit of streams that earlier calls have closed may still be on its way back (MAX_STREAMS): the
+	// limit counts as reached only when it has stayed reached over three attempts 40 ms apart
+	stable := 0
+	for i := 0; i < 4096 && stable < 3; i++ {
 		s, err := cl.conn.OpenStream()
 		if err != nil {
-			if sk, ok := cl.pktConn.(*c16Sock); ok {
-				h.mu.Lock()
-				sk.filled = true
-				h.mu.Unlock()
+			stable++
+			if stable < 3 {
+				time.Sleep(40 * time.Millisecond)
 			}
-			return
+			continue
 		}
+		stable = 0
 		h.streams = append(h.streams, s)
+	}
+	if stable >= 3 {
+		if sk, ok := cl.pktConn.(*c16Sock); ok {
+			h.mu.Lock()
+			sk.filled = true
+			h.mu.Unlock()
+		}
+		return
 	}
 	h.fail("harness: stream limit never reached")
 }
@@ -1134,7 +1145,11 @@ func c16Run(i int, c c16Case, tlsc server.TLSConfig) (out c16Out) {
 	}
 	out.Ok = len(why) == 0
 	out.Why = strings.Join(why, "; ")
-	pipes := h.kickPipes
+	// copy under the lock: a request that surfaces late on a server goroutine still registers its pipe
+	pipes := make([]net.Conn, 0, len(h.kickPipes))
+	for _, p := range h.kickPipes {
+		pipes = append(pipes, p)
+	}
 	h.mu.Unlock()
 	for _, p := range pipes {
 		_ = p.Close()
